@@ -27,7 +27,7 @@ ASSUMPTIONS = ["a re-registration on the same token starts a new registration (i
                "registrations still alive, on what the server transmitted (not on what the lossy network delivered)"]
 EXPECTED_PROBES = ["change_during_render", "coalesced_burst", "change_while_in_flight", "end_by_rst", "end_by_new_request", "end_by_deregister",
                    "end_by_timeout", "end_by_icmp", "end_by_senderr", "end_by_error_notification", "end_by_last_notification", "end_by_shutdown",
-                   "non_registration", "several_observers", "rst_on_non_notification", "observers_share_a_host", "sendmsg_failed", "end_event_during_render", "explicit_notification", "own_observation_under_observers_token"]
+                   "non_registration", "several_observers", "rst_on_non_notification", "observers_share_a_host", "sendmsg_failed", "end_event_during_render", "explicit_notification", "own_observation_under_observers_token", "partition"]
 
 REACTIONS = ["ack", "ack", "ack", "rst", "silent", "rereg", "dereg"]
 
@@ -76,9 +76,16 @@ def gen(r, tier):
         # get the very token that observer registered with (the two directions choose tokens independently)
         ops.append({"op": "own_observe", "t": round(r.uniform(1.5, t + 1), 4), "observer": r.randrange(nobs)})
         ops.sort(key=lambda o: o["t"])
+    part = None
+    if r.chance(0.15):
+        # the path to one observer is cut for a while and heals; a state change follows once it has healed
+        part = {"t0": round(r.uniform(1.5, t + 1), 3), "dur": r.choice([0.5, 3.0, 20.0, 100.0]), "observer": r.randrange(nobs)}
+        ops.append({"op": "change", "t": round(part["t0"] + part["dur"] + r.choice([0.5, 5.0, 50.0]), 4), "n": 1})
+        ops.sort(key=lambda o: o["t"])
     early = any(o["t"] < 1.5 and o["op"] in ("reg", "icmp", "senderr") for o in ops)
     return {"observers": observers, "ops": ops, "net": faults.swarm(r, kinds=("drop", "dup", "delay"), fault_free=0.35),
-            "render_delay": r.choice([0.05, 0.05, 0.005]) if early else r.choice([0, 0, 0.0005, 0.005, 0.05]), "same_host": r.chance(0.3)}
+            "render_delay": r.choice([0.05, 0.05, 0.005]) if early else r.choice([0, 0, 0.0005, 0.005, 0.05]), "same_host": r.chance(0.3),
+            "partition": part}
 
 
 def systematic(tier):
@@ -307,6 +314,10 @@ def execute(sim, scn):
         loop.at(o["t"], observers[o["id"]].register, 0)
         if not o["con"]:
             sim.probe("non_registration")
+    if scn.get("partition") and scn["partition"]["observer"] in observers:
+        pt = scn["partition"]
+        sim.net.partitions.append((pt["t0"], pt["t0"] + pt["dur"], common.SERVER_IP, observers[pt["observer"]].addr[0]))
+        sim.probe("partition")
     own_requests = []
     own = [o for o in scn["ops"] if o["op"] == "own_observe"]
     if own and own[0]["observer"] in observers:
